@@ -74,6 +74,10 @@ def run(ctx):
             mk = pos.get((r_["e"], r_.get("dof"), m["ser"], round(m["mirror_alpha"], 15)))
             if mk:
                 r_["mirror"] = mk
+                a_ = min(r_["alpha"], 1 - r_["alpha"])
+                # 1-a is not the exact mirror of a in double arithmetic: relative error up to 1.2e-16 / min(a, 1-a) in the tail
+                # probability, and |d ln t / d ln a| <= 1 for every quantile here
+                r_["sppm"] = 1 + int(math.ceil(2.4e-10 / a_))
     tp = os.path.join(ctx.outdir, "quantiles.ndjson")
     vlib.write_ndjson(tp, recs)
     t = vlib.tlc("Quantiles", "Quantiles.cfg", workers=1, env={"TRACE": tp}, timeout=1200, heap="4g")
@@ -84,6 +88,11 @@ def run(ctx):
             open(cfg, "w").write("SPECIFICATION Spec\nINVARIANT %s\nCHECK_DEADLOCK FALSE\n" % law)
             t1 = vlib.tlc("Quantiles", os.path.basename(cfg), workers=1, env={"TRACE": tp}, timeout=1200, heap="4g")
             os.remove(cfg)
+            if t1.outcome not in ("ok", "invariant"):       # an evaluation error (overflow ...) must never read as "law holds"
+                raise vlib.ModelFailure("Quantiles law %s: %s\n%s" % (law, t1.outcome, t1.out[-2500:]))
+            if t1.outcome == "invariant" and not t1.cases:
+                raise vlib.ModelFailure("Quantiles law %s violated without a report\n%s" % (law, t1.out[-2500:]))
+            ctx.add("laws_evaluated")
             for c in t1.cases:
                 for k in sorted(c["bad"]):
                     r_ = recs[k - 1]
